@@ -195,5 +195,14 @@ Lemma table_decided_row p :
   survives the_table (p_mod p) p = true.
 Proof.
   intros Hin Hl Hk. pose proof table_decided as H. rewrite forallb_forall in H. specialize (H p Hin).
-  unfold prefix_decided in H. rewrite Hl, Hk in H. cbn in H. rewrite orb_false_r in H. exact H.
+  unfold prefix_decided in H. rewrite Hl, Hk in H.
+  change (negb true) with false in H. rewrite orb_false_l, orb_false_r in H. exact H.
 Qed.
+
+Lemma survives_cover t m p : survives t m p = true -> p_counter p = false ->
+  cover_ok (classify t m (p_byte p)) = true.
+Proof. unfold survives. intros H Hc. rewrite Hc in H. apply andb_prop in H. tauto. Qed.
+
+Lemma survives_counter t m p : survives t m p = true -> p_counter p = true ->
+  counter_ok t m (p_byte p) = true.
+Proof. unfold survives. intros H Hc. rewrite Hc in H. apply andb_prop in H. tauto. Qed.
